@@ -1,6 +1,8 @@
 #!/bin/bash
 # Verify seeded changes against the CURRENT head of /repo in one scratch worktree and save them under /verif/seeded/<id>/.
-#   usage: seedverify.sh <srcdir> <ID>...        srcdir/<ID>/{patch.rebased.diff|patch.diff, demo_<id>.rs, notes.md}
+#   usage: [SUFFIX=b] seedverify.sh <srcdir> <ID>...   (SUFFIX: save as /verif/seeded/<ID><SUFFIX>)
+#   srcdir layout: <srcdir>/<ID>/{patch.diff, demo_<id>.rs, notes.md} or <srcdir>/<ID>/out/... is NOT searched: pass the dir that holds them
+#   old usage line:        srcdir/<ID>/{patch.rebased.diff|patch.diff, demo_<id>.rs, notes.md}
 # For each id: demo without the change (expect ok) -> apply -> lib suite (expect 41 pass) -> demo with the change (expect FAIL).
 src=$1; shift
 wt=/tmp/seedverify
@@ -23,12 +25,13 @@ for id in "$@"; do
     echo "== demo with the change (expect FAILED)" >> $out
     cargo test --offline $feat --test demo_$idl 2>&1 | grep -E "^test result|^test .* (ok|FAILED)|^error" | head -8 >> $out
   fi
-  mkdir -p /verif/seeded/$id
-  cp $p /verif/seeded/$id/patch.diff
-  [ "$(basename $p)" = patch.rebased.diff ] && cp $src/$id/patch.diff /verif/seeded/$id/patch.original.diff
-  cp $demo /verif/seeded/$id/
-  [ -f $src/$id/notes.md ] && cp $src/$id/notes.md /verif/seeded/$id/notes.md
-  cp $out /verif/seeded/$id/verify.txt; rm -f $out
-  echo "---- $id"; cat /verif/seeded/$id/verify.txt
+  dst=/verif/seeded/$id${SUFFIX:-}
+  mkdir -p $dst
+  cp $p $dst/patch.diff
+  [ "$(basename $p)" = patch.rebased.diff ] && cp $src/$id/patch.diff $dst/patch.original.diff
+  cp $demo $dst/
+  [ -f $src/$id/notes.md ] && cp $src/$id/notes.md $dst/notes.md
+  cp $out $dst/verify.txt; rm -f $out
+  echo "---- $id"; cat $dst/verify.txt
 done
 cd /; git -C /repo worktree remove --force $wt; rm -rf /tmp/seedverify-target
